@@ -198,6 +198,12 @@ Definition server_enabled (s : st) (i : N) : bool :=
 Definition quiescent (s : st) : Prop :=
   forall i, client_enabled s i = false /\ server_enabled s i = false.
 
+(* the decidable form, for the clients 0 .. n-1 (processes >= n never exist) *)
+Definition ids (n : N) : list N := map N.of_nat (seq 0 (N.to_nat n)).
+
+Definition quiescentb (n : N) (s : st) : bool :=
+  forallb (fun i => negb (client_enabled s i) && negb (server_enabled s i)) (ids n).
+
 (* ---------- observations used by Run/C20.v and by the monitors ---------- *)
 
 Definition live (x : sstate) : bool :=
